@@ -3,11 +3,17 @@ import cmath, math, random
 from fractions import Fraction
 
 from ..gen import points as G
-from .c12_translate import translate  # noqa: F401  (translated fragments, see that module)
+from .c12_translate import translate as _translate_exprs  # translated expressions of the primitives, see that module
+from ..gen import c12_source as _BOX                      # translated BODIES of every AABB method (round 4): Generated/C12Box.lean
+
+
+def translate():
+    return _translate_exprs() + _BOX.translate() + _BOX.translate_maths() + _BOX.translate_prims() + _BOX.translate_writes()
+
 
 PID = "C12"
 TITLE = "Geometric primitives and boxes obey their algebra, with no side effects"
-LEAN_MODULES = ["Mouette.Props.C12", "Mouette.Props.C12R", "Mouette.Props.C12G", "Mouette.Props.C12T", "Mouette.Props.C12H"]
+LEAN_MODULES = ["Mouette.Props.C12", "Mouette.Props.C12R", "Mouette.Props.C12G", "Mouette.Props.C12T", "Mouette.Props.C12H", "Mouette.Props.C12S", "Mouette.Props.C12M"]
 REQUIRED_THEOREMS = [
     "project_in_box", "project_realises_l1", "project_realises_linf", "project_realises_l2", "contained_dist_zero",
     "union_contains", "inter_is_overlap", "doIntersect_iff_overlap", "ofPoints_contains", "ofPoints_tight",
@@ -25,13 +31,80 @@ REQUIRED_THEOREMS = [
     "cotanPair_scale", "cotanPair_eq_angle3", "pad_clamped", "pad_superset", "padv_frame", "padAt_box",
     # round 3 (Props/C12H.lean): histories by value - results are fresh, every other box keeps its value
     "results_fresh", "other_boxes_unchanged", "result_and_operands_independent",
+    # round 4 (Props/C12S.lean): the BODIES of the AABB methods translated on every run (Generated/C12Box.lean) = box algebra;
+    # the box laws restated on the extracted methods
+    "ctor_bridge", "ctor_copies", "dim_bridge", "infinite_bridge", "unitCube_bridge", "ofPoints_bridge", "span_bridge", "center_bridge",
+    "inter_bridge", "union_bridge", "andOr_bridge", "doIntersect_bridge", "padVec_bridge", "padFloat_bridge", "containsPoint_bridge",
+    "project_bridge", "distance_bridge", "isEmpty_bridge",
+    "project_in_box_source", "project_realises_source", "contained_dist_zero_source", "union_contains_source", "inter_is_overlap_source",
+    "doIntersect_iff_overlap_source", "ofPoints_source", "pad_superset_source",
+    # round 4 (Props/C12M.lean): bodies of maths.py (principal_angle, angle_diff, roots) and of closed-form primitives of geometry.py
+    # (Generated/C12Maths.lean, C12Prim.lean) = the real / rational specifications; what is assumed about float `%`, atan2 is explicit
+    "principalAngle_bridge", "angleDiff_bridge", "principalAngle_source_spec", "angleDiff_source_spec", "rootArgs_bridge",
+    "roots_source_pow", "principalAngle_turn_bridge", "angleDiff_turn_bridge", "rootArgs_turn_bridge",
+    "sign0_bridge", "projectToPlane_bridge", "intersect2_bridge", "clamp_bridge", "distSeg2_bridge", "area2_bridge", "angle3_bridge",
+    "signedAngle_bridge", "angle_3pts_source_range_symm", "signed_angle_source_antisymm",
+    # frame conditions read off the source (Generated/C12W.lean): write sets reaching arguments, numpy.seterr calls
+    "source_write_sets", "source_write_sets_cover", "source_no_seterr",
 ]
+
+# Which function of the anchor files is tied to the model how.  "translated": a definition of Generated/C12*.lean is emitted from
+# that body on every run and a bridge theorem of Props/C12G.lean / C12S.lean / C12M.lean uses it.
+_G = "mouette/geometry/geometry.py::"
+_A = "mouette/geometry/aabb.py::AABB."
+_V = "mouette/geometry/vector.py::Vec."
+SOURCE_MAP = {
+    _A + "__init__": "translated", _A + "dim": "translated", _A + "mini": "translated", _A + "maxi": "translated",
+    _A + "unit_cube": "translated", _A + "infinite": "translated", _A + "of_points": "translated", _A + "span": "translated",
+    _A + "center": "translated", _A + "intersection": "translated", _A + "__and__": "translated", _A + "do_intersect": "translated",
+    _A + "union": "translated", _A + "__or__": "translated", _A + "pad": "translated", _A + "contains_point": "translated",
+    _A + "project": "translated", _A + "distance": "translated", _A + "is_empty": "translated",
+    _A + "of_mesh": "out-of-scope: needs a Mesh object (same formula as of_points, which is translated)",
+    _A + "__repr__": "out-of-scope: printing",
+    _A + "IncompatibleDimensionError.__init__": "out-of-scope: exception class",
+    _G + "cross": "translated", _G + "det_2x2": "translated", _G + "det_3x3": "translated",          # Generated/C12.lean (expressions), C12G
+    _G + "sign0": "translated", _G + "project_to_plane": "translated", _G + "intersect_2lines2D": "translated",
+    _G + "distance_to_segment2D": "translated", _G + "triangle_area_2D": "translated", _G + "angle_3pts": "translated",
+    _G + "signed_angle_2vec3D": "translated",                                                        # Generated/C12Prim.lean, C12M
+    _G + "norm": "modelled",            # Box.normL1 / normLinf / normL2sq (l2 squared), BoxS.normOf
+    _G + "dot": "modelled",             # V2.dot / V3.dot of Model/Prim.lean (np.dot)
+    _G + "distance": "modelled",        # squared norm of the difference
+    _G + "cotan": "modelled",           # Prim.cotanPair (the code normalises first: cotanPair_scale)
+    _G + "circumcenter": "modelled",    # Prim.circumcenter (closed form; the code goes through face_basis and intersect_2lines2D)
+    _G + "face_basis": "oracle-only",   # reached through circumcenter only
+    _G + "sign": "out-of-scope: not used by a clause of the statement",
+    _G + "signed_angle_3pts": "out-of-scope: thin wrapper of signed_angle_2vec3D, not exercised",
+    _G + "angle_2vec2D": "out-of-scope: not in the statement", _G + "angle_2vec3D": "out-of-scope: not in the statement",
+    _G + "triangle_area": "out-of-scope: not in the statement (triangle_area_2D is translated)",
+    _G + "quad_area": "out-of-scope: not in the statement", _G + "aspect_ratio": "out-of-scope: not in the statement",
+    "mouette/geometry/rotations.py::rotate_2d": "translated", "mouette/geometry/rotations.py::rotate_around_axis": "translated",
+    "mouette/geometry/rotations.py::axis_rot_from_z": "out-of-scope: not in the statement",
+    "mouette/geometry/rotations.py::match_rotation": "out-of-scope: scipy Rotation groups, not in the statement",
+    _V + "__new__": "modelled",          # heap model of Model/BoxHist.lean: Vec(x) is a view of an ndarray, a copy of a list/tuple
+    _V + "normalized": "modelled",       # normalizedRepaired (numpy error state restored on return and on raise)
+    _V + "normalize": "oracle-only",     # documented to modify its own object; monitored for other effects
+    _V + "norm": "modelled", _V + "dot": "modelled",
+    _V + "x": "modelled", _V + "y": "modelled", _V + "z": "modelled",      # component access (getters); setters are used by rotate_* only
+    _V + "xy": "out-of-scope: accessor not used by the anchored functions",
+    _V + "outer": "out-of-scope: not in the statement", _V + "from_complex": "out-of-scope: constructor not used by the anchored functions",
+    _V + "random": "out-of-scope: random constructor", _V + "zeros": "out-of-scope: constructor not used by the anchored functions",
+    _V + "X": "out-of-scope: constant constructor", _V + "Y": "out-of-scope: constant constructor", _V + "Z": "out-of-scope: constant constructor",
+    "mouette/utils/maths.py::principal_angle": "translated", "mouette/utils/maths.py::angle_diff": "translated",
+    "mouette/utils/maths.py::roots": "translated",
+    "mouette/utils/maths.py::solve_quadratic": "out-of-scope: not in the statement",
+}
+
 TRUSTED = [
     "Lean 4.33.0 kernel; axioms ⊆ {propext, Classical.choice, Quot.sound}",
     "hand-written models Mouette/Model/AABB.lean, BoxHist.lean (heap + numpy error state), Prim.lean tied to mouette/geometry/{aabb,vector,geometry,rotations}.py by the history correspondence of this run",
     "floating point not modelled: inputs are small dyadic rationals (box operations are then exact in binary64); sqrt/cos/sin/atan2 are applied by the harness to the model's exact rational outputs and compared at |impl-exact| <= 1e-9*scale+1e-12",
     "numpy view/copy rules and numpy.geterr() are observed from outside (bytes + identity snapshots around every call)",
     "translator vlib/props/c12_translate.py (Python ast -> Lean term, verbatim) for the expressions of cross, det_2x2, det_3x3, rotate_2d, rotate_around_axis and the 1e-12 thresholds",
+    "round 4: vlib/gen/c12_source.py re-extracts on every run the BODIES of every AABB method (Generated/C12Box.lean), of principal_angle / angle_diff / roots "
+    "(Generated/C12Maths.lean) and of sign0, project_to_plane, intersect_2lines2D, distance_to_segment2D, triangle_area_2D, angle_3pts, signed_angle_2vec3D "
+    "(Generated/C12Prim.lean); Props/C12S.lean, C12M.lean prove them equal to the box algebra / the real and rational specifications. Trusted there: the translator "
+    "and the vocabulary of Model/BoxSource.lean (numpy componentwise operations as zipWith over ℚ∪{±∞}); float `%` with a positive modulus is x − m⌊x/m⌋, math.pi is π, "
+    "cmath.polar/rect are (|c|, arg c) / exp(iθ), atan2 of a norm is represented by (norm², c): all exact, rounding not modelled",
 ]
 ASSUMPTIONS = ["agreement model/implementation is established on the histories explored in this run only",
                "box laws are claimed for boxes with mini <= maxi in every dimension (inverted boxes are only checked for side effects and against the model)",
@@ -51,6 +124,22 @@ RULE = ("(a) histories of 4-14 operations on 3-6 caller arrays (dimension 1-6, d
         "one box operation on an existing box returning a value (a) / a non-degenerate primitive evaluation (b)")
 
 DEFAULT_ERR = {"divide": "warn", "over": "warn", "under": "ignore", "invalid": "warn"}
+
+# Round 4, soundness of the oracle: clauses that the STATEMENT of C12 does not contain are no longer findings (a deviation there is
+# still seen by the correspondence with the model, i.e. at worst `no-failing-input-found`, and is counted below for information):
+# the value of pad / span / center / normalized, project_to_plane, triangle_area_2D, and how many distinct values `roots` returns.
+_BEYOND = {"pad/value", "pad/superset", "span/current-bounds", "center/current-bounds", "normalized/value", "project_to_plane/in-plane",
+           "area2/exact", "roots/count", "roots/distinct"}
+_BEYOND_SEEN = {}
+
+
+def _report_beyond():
+    if _BEYOND_SEEN:
+        print("C12 deviations on clauses beyond the statement (informational, not findings):", dict(sorted(_BEYOND_SEEN.items())))
+
+
+import atexit
+atexit.register(_report_beyond)
 
 
 # ------------------------------------------------------------------------------------------------
@@ -218,6 +307,7 @@ def _run_hist(case, want_oracle):
         return [(f"box{k}", bx) for k, bx in enumerate(boxes) if not any(bx is o for o in own)]
 
     def law(key, what, detail):
+        if key in _BEYOND: _BEYOND_SEEN[key] = _BEYOND_SEEN.get(key, 0) + 1; return
         findings.append({"key": "C12/" + key, "what": what, "detail": detail})
 
     def bounds(bx):
@@ -337,7 +427,8 @@ def _run_hist(case, want_oracle):
                                 diff = [abs(x - y) for x, y in zip(pr, ex)]
                                 for which, val in (("l1", sum(diff)), ("linf", max(diff)), ("l2", sum(d * d for d in diff))):
                                     d = float(b.distance(pt, which))
-                                    okd = (Fraction(d) == val) if which != "l2" else abs(d - math.sqrt(val)) <= loose * (1 + math.sqrt(val))
+                                    # the projection is finite here, so a non-finite distance cannot be the distance it realises
+                                    okd = math.isfinite(d) and ((Fraction(d) == val) if which != "l2" else abs(d - math.sqrt(val)) <= loose * (1 + math.sqrt(val)))
                                     if not okd:
                                         law(f"project/realises-distance/{which}", f"|p - project(p)| differs from distance(p,'{which}')", f"step {step}")
                                 if bool(b.contains_point(pt)) and float(b.distance(pt)) != 0.0:
@@ -422,6 +513,7 @@ def _run_prim(case, want_oracle):
     mon = Monitor()
 
     def law(key, what, detail=""):
+        if key in _BEYOND: _BEYOND_SEEN[key] = _BEYOND_SEEN.get(key, 0) + 1; return
         findings.append({"key": "C12/" + key, "what": what, "detail": detail})
 
     prep = _prim_rep(case)
@@ -970,9 +1062,17 @@ MANIFEST = {
                    "another box (pad changes only its own box) and normalized leaves numpy.geterr() as found on return and on raise; the "
                    "aliasing constructor and the seterr sequence of the pinned tree are refuted on witnesses. Tied to the code by a history "
                    "correspondence with a monitor snapshotting arrays and geterr() around every call, and a direct exact-arithmetic oracle."),
+    "level_round4": ("Round 4: the bodies of every AABB method, of principal_angle / angle_diff / roots and of sign0, project_to_plane, intersect_2lines2D, "
+                     "distance_to_segment2D, triangle_area_2D, angle_3pts, signed_angle_2vec3D are translated from the working tree on every run "
+                     "(Generated/C12Box.lean, C12Maths.lean, C12Prim.lean) and PROVED equal to the box algebra / the real and rational specifications "
+                     "(Props/C12S.lean, C12M.lean); the box laws and the angle clauses are restated on the extracted definitions; the write sets of all anchored "
+                     "functions relative to their arguments and the calls of numpy.seterr are read off the source (source_write_sets, source_no_seterr)."),
     "level_note": ("Trusted: Lean kernel + 3 standard axioms; hand-written models checked against the code on the histories of each run; floats not "
                    "modelled (dyadic inputs; sqrt/trig applied by the harness at 1e-9 relative tolerance). Angle statements (range, symmetry, "
                    "antisymmetry given N not orthogonal to V1xV2, cotan, angle reduction, roots) are theorems about real-number SPECIFICATIONS "
                    "(atan2 = Complex.arg, float modulo = floor formula, cmath.rect = exp) tied to the code by the numerical oracle only."),
     "technique": "Lean 4 algebraic proofs (ring/linarith/min-max by induction on dimension) + heap-model frame theorems; monitored history correspondence",
 }
+
+# the round-4 paragraph belongs to the level text (tools/mkmanifest.py reads level_text / level_note / technique)
+MANIFEST["level_text"] = MANIFEST["level_text"] + " " + MANIFEST.pop("level_round4")
